@@ -156,3 +156,40 @@ def in_stable_time_order(R, src, nR):
     ta, tb = ts(l_at(R, a)), ts(l_at(R, b))
     return forall([a, b], z3.Implies(z3.And(0 <= a, a < b, b < nR), z3.And(ta <= tb, z3.Implies(ta == tb, src(a) < src(b)))),
                   patterns=[z3.MultiPattern(l_at(R, a), l_at(R, b))])
+
+
+# ---------------------------------------------------------------- mutable points at the API boundary
+
+AnyObj = TU("AnyObj")  # an element handed to insert_multiple: a Point or anything else
+LAny = TList(AnyObj)
+_any = sort_of(AnyObj)
+ODt = TOpt(Dt)
+is_point = z3.Function("is_point", _any, z3.BoolSort())
+mp_time = z3.Function("mp_time", _any, sort_of(ODt))
+mp_meas = z3.Function("mp_meas", _any, sort_of(TStr))
+mp_tags = z3.Function("mp_tags", _any, sort_of(TagsD))
+mp_fields = z3.Function("mp_fields", _any, sort_of(FldsD))
+mkpt = z3.Function("mkpt", sort_of(Dt), sort_of(TStr), sort_of(TagsD), sort_of(FldsD), sort_of(Pt))
+now_utc = z3.Function("now_utc", z3.IntSort(), sort_of(Dt))  # datetime.now(timezone.utc) of the n-th call
+
+MP = TObj("MPoint")
+register_class("MPoint", "tinyflux.point", dict(_time=ODt, _measurement=TStr, _tags=TagsD, _fields=FldsD, _is_point=TBool), props=())
+S.CLASSES["MPoint"]["source_class"] = "Point"
+
+
+def mkpt_axioms():
+    t = z3.Const("ax_t", sort_of(Dt))
+    m = z3.Const("ax_m2", sort_of(TStr))
+    tg = z3.Const("ax_tg", sort_of(TagsD))
+    fl = z3.Const("ax_fl", sort_of(FldsD))
+    p = mkpt(t, m, tg, fl)
+    return [forall([t, m, tg, fl], z3.And(time_of(p) == t, meas(p) == m, tagsd(p) == tg, fldsd(p) == fl), patterns=[p])]
+
+
+S.THEORIES["mkpt"] = mkpt_axioms()
+
+
+def pt_of(rec):
+    """the Pt value of a mutable point record (its time must be set)"""
+    f = rec.t
+    return mkpt(o_val(f["_time"].t), f["_measurement"].t, f["_tags"].t, f["_fields"].t)
